@@ -23,5 +23,19 @@ extern void vsp(const volatile void *addr, int kind);
 #define __atomic_test_and_set(p, o) VHOOK_RMW(__atomic_test_and_set((p), (o)), p)
 #define __atomic_clear(p, o)                                                   \
     ({ vsp((p), 1); __atomic_clear((p), (o)); vsp((p), 5); })
+/* the 128-bit compare-and-swap of the tagged-pointer LIFO is inline assembly:
+ * wrap it so that it is a scheduling point like the builtins */
+#if defined(__x86_64__) && !defined(VHOOK_NO_INT128)
+#define ABTD_asm_bool_cas_weak_int128 ABTD_asm_bool_cas_weak_int128_real
+#include "asm/abtd_asm_int128_cas.h"
+#undef ABTD_asm_bool_cas_weak_int128
+static inline int ABTD_asm_bool_cas_weak_int128(__int128 *var, __int128 oldv, __int128 newv)
+{
+    vsp(var, 2);
+    int vh_r_ = ABTD_asm_bool_cas_weak_int128_real(var, oldv, newv);
+    vsp(var, 5);
+    return vh_r_;
+}
+#endif
 #endif
 #endif
